@@ -55,11 +55,15 @@ impl<'r> BinDecodable<'r> for A {
 //%fn crates/proto/src/rr/rdata/a.rs :: impl<'r> BinDecodable<'r> for A :: read
 //%sub1 ".into())" => "; Ok(A(vp_ip)) }" # R-shim: Into::into -> the From impl it resolves to (`Self(a)`)
 //%sub1 "Ok(Ipv4Addr::new(" => "{ let vp_ip = Ipv4Addr::new(" # R-shim (same rewrite, opening half)
+//%contract
+        ensures r is Ok ==> final(decoder).idx() == old(decoder).idx() + 4      // used by IpHint<A>::read (unit rdata_loops): progress
 //%end
 }
 impl<'r> BinDecodable<'r> for AAAA {
 //%fn crates/proto/src/rr/rdata/aaaa.rs :: impl<'r> BinDecodable<'r> for AAAA :: read
 //%sub1 "Ok(Ipv6Addr::new(a, b, c, d, e, f, g, h).into())" => "Ok(AAAA(Ipv6Addr::new(a, b, c, d, e, f, g, h)))" # R-shim: Into::into -> the From impl it resolves to (`Self(aaaa)`)
+//%contract
+        ensures r is Ok ==> final(decoder).idx() == old(decoder).idx() + 16     // used by IpHint<AAAA>::read (unit rdata_loops): progress
 //%end
 }
 
@@ -215,8 +219,12 @@ impl TsigError { #[verifier::external_body] pub fn from(v: u16) -> TsigError { u
 //%end
 impl<'r> RecordDataDecodable<'r> for TSIG {
 //%fn crates/proto/src/rr/rdata/tsig.rs :: impl<'r> RecordDataDecodable<'r> for TSIG :: read_data
-//%sub1 "|&size| decoder.index() + size as usize + 6 /* 3 u16 */ <= end_idx" => "|size: &u16| -> (b: bool) { decoder.index() + *size as usize + 6 <= end_idx }" # R-clo + R-ref: typed closure, `&size` pattern written as a deref
-//%sub1 "|&size| decoder.index() + size as usize == end_idx" => "|size: &u16| -> (b: bool) { decoder.index() + *size as usize == end_idx }" # R-clo + R-ref
+//%closure "|&size|"@1
+|vp_size: &u16| -> (b: bool)
+@body: let size = *vp_size;
+//%closure "|&size|"@2
+|vp_size: &u16| -> (b: bool)
+@body: let size = *vp_size;
 //%mutant mac_bound_unchecked "decoder.read_vec(mac_size as usize)?" => "decoder.read_vec(mac_size as usize + usize::MAX)?"
 //%closure "||"
 || -> (e: DecodeError)
